@@ -7,7 +7,7 @@ NEEDS_BINARY = False
 NAMES = ["ls", "ll", "g", "a.b", "x-y", "A_1", "9z", "wc", "xargs", "foo"]
 VALUES = ["ls -l", "ls --color=auto", "ls | wc", "echo 'a b'", 'echo "x y"', "ll -a", "g", "foo bar foo", "wc -l", "it's", "say \"hi\"", "a  b",
           "echo $HOME", "x;y", "", "xargs ls", "ls > f", "-n", "é ü",
-          '"x y" z', "echo $$", "echo {a,b}", "echo (p) #c"]
+          '"x y" z', "echo $$", "echo {a,b}", "echo (p) #c", " ", "   "]       # (all-blank values: the command word simply disappears)
 RULE = ("alias tables over 10 names drawn from [A-Za-z0-9_.-]+ (incl. `xargs`) and 19 values (options, blanks, quotes of the other kind, "
         "pipes, other alias names, self reference, empty): token lists of 1..3 stages with alias names as first and as non-first words "
         "through shell::expand_alias vs the Lean model vs the Lean spec; random sequences (<= 20) of define (3 quoting spellings) / redefine / "
